@@ -150,6 +150,8 @@ pub const OPS: &[&str] = &[
     "delete_sys_room",
     "delete_sys_auth",
     "room_add_user_D",
+    "room_rewrite_user_entry",
+    "room_rewrite_user_entry_of_R2",
     "room_add_right_wildcard",
     "room_add_self_admin",
 ];
@@ -422,6 +424,29 @@ impl<'a> Ctx<'a> {
                 let (t, p) = u.event_mutation(&self.r1, &ev);
                 is_room_op = Some(ev);
                 (t, p)
+            }
+            "room_rewrite_user_entry" | "room_rewrite_user_entry_of_R2" => {
+                // entries of a definition are append only: naming the id of a stored user entry with another content is
+                // refused whoever asks (an administrator included), in this room and all the more for an entry that
+                // belongs to another room
+                forbidden = true;
+                let own = op == "room_rewrite_user_entry";
+                let g = if own { self.r1.groups[0] } else { self.r2.groups[0] };
+                let rows = u.peers[x]
+                    .sql(&format!("SELECT dest FROM _edge WHERE src = x'{}' AND label = '34' ORDER BY cdate, dest LIMIT 1", hex::encode_upper(g)))
+                    .await?;
+                let uid: discret::verif::security::Uid = match rows.first().and_then(|r| r[0].blob()) {
+                    Some(b) if b.len() == 16 => {
+                        let mut id = [0u8; 16];
+                        id.copy_from_slice(b);
+                        id
+                    }
+                    _ => return Err(format!("{}: the group has no stored user entry on {}'s device", op, NAMES[x])),
+                };
+                (
+                    "mutate { sys.Room { id:$room authorisations:[{ id:$g users:[{ id:$uid verif_key:$k enabled:true }] }] } }".into(),
+                    params(&[pr("room", b64(&self.r1.id)), pr("g", b64(&self.r1.groups[0])), pr("uid", b64(&uid)), pr("k", b64(&u.keys[x]))]),
+                )
             }
             "room_add_right_wildcard" => {
                 let ev = REvent::AddRight { group: 0, entity: "*".into(), own: true, all: true };
